@@ -3,7 +3,7 @@ from props import S
 CFG = {
     "properties_file": "Properties/C18.v",
     "corr_files": ["Corr/RateLimitCorr.v", "Corr/C18.v"],
-    "streams": [S("C18", "drive_ratelimit", 420, 20000), S("C18ns", "drive_ratelimit", 300, 12000)],
+    "streams": [S("C18", "drive_ratelimit", 320, 20000), S("C18ns", "drive_ratelimit", 200, 12000)],
     "rule": "one limiter object of the real code (RateLimiter built by NewRateLimiter, bare PerIPLimiter, bare TokenBucket) "
             "driven on the virtual clock by 8-70 calls (AllowRequest / AllowOperation / CleanupConnection; 1-4 addresses, "
             "1-3 connections, all four operation types; rates {0,1,2,3,10,1000} + dyadic fractions, bursts {0,1,2,5,100}, "
@@ -27,8 +27,9 @@ CFG = {
                   "equal those of the cleanup-free limiter for every trigger policy and every choice of full buckets reached) and "
                   "C18_cleanup_deletes_only_full (the idle condition Tokens() >= burst). No bound on histories. Tied to "
                   "rate_limiter.go by astfacts (limiter order, config fields, bursts, divisor 60, call sites) and by differential "
-                  "runs on the virtual clock, which also evaluate the bound, single-bucket conformance and the never-refused "
-                  "statement on the implementation's own bits.",
+                  "runs on the virtual clock, which also evaluate on the implementation's own bits: the bound per limiter, "
+                  "never-refused-within-limits (single buckets and the AllowRequest chain), and equality with a second instance "
+                  "of the real code whose cleanup never runs.",
     "level_note": "Trusted: Coq kernel; the hand-written models Model/TokenBucket.v, Model/RateLimit.v (four Go maps rendered as "
                   "one keyed map; Go map iteration order and the 100-deletion cap rendered as an arbitrary selection the theorems "
                   "quantify over); the clock overlay; the Go driver and verif_hooks_ratelimit.go (read-only accessors, used for tags "
